@@ -1024,6 +1024,101 @@ fn sweep<G: Fn(u64) -> Spec + Sync>(
 }
 
 // ---------------------------------------------------------------------------------------
+// (7) a command encoded after an encode that failed in the writer
+// ---------------------------------------------------------------------------------------
+
+/// accepts `left` bytes in total, then fails
+struct FailAfter {
+    left: usize,
+}
+
+impl std::io::Write for FailAfter {
+    fn write(&mut self, buf: &[u8]) -> std::io::Result<usize> {
+        if self.left == 0 {
+            return Err(std::io::Error::new(std::io::ErrorKind::Other, "sink is full"));
+        }
+        let n = buf.len().min(self.left);
+        self.left -= n;
+        Ok(n)
+    }
+    fn flush(&mut self) -> std::io::Result<()> {
+        Ok(())
+    }
+}
+
+/// For every representative command `first`, every number of bytes k the sink takes before failing, and every
+/// representative command `second`: `second` encoded on the same encoder afterwards must give the bytes a fresh
+/// encoder gives ("self-contained ... whatever preceded it").
+fn sweep_after_failed_write(viol: &Violations, cfgs: &[Cfg]) -> u64 {
+    let reps = representatives();
+    let evals = AtomicU64::new(0);
+    let n = reps.len();
+    (0..n * cfgs.len()).into_par_iter().for_each(|i| {
+        let cfg = &cfgs[i % cfgs.len()];
+        let first = &reps[i / cfgs.len()];
+        let mut whole = vec![];
+        if encode_with(&mut TTYEncoder::new(cfg.caps()), first, &mut whole).is_err() || whole.is_empty() {
+            return;
+        }
+        // a sink that takes one byte per call must receive the same bytes
+        {
+            struct OneByte(Vec<u8>);
+            impl std::io::Write for OneByte {
+                fn write(&mut self, buf: &[u8]) -> std::io::Result<usize> {
+                    match buf.first() {
+                        Some(b) => {
+                            self.0.push(*b);
+                            Ok(1)
+                        }
+                        None => Ok(0),
+                    }
+                }
+                fn flush(&mut self) -> std::io::Result<()> {
+                    Ok(())
+                }
+            }
+            evals.fetch_add(1, Ordering::Relaxed);
+            let mut sink = OneByte(vec![]);
+            let cmd = first.command();
+            let res = catch(|| TTYEncoder::new(cfg.caps()).encode(&mut sink, cmd));
+            if !matches!(res, Ok(Ok(()))) || sink.0 != whole {
+                viol.add(
+                    format!("short-writing-sink:{}:differs", first.name()),
+                    format!("{:?} encoded into a sink that takes one byte per call delivered {:?}, into a Vec {:?} ({:?})", first.command(), esc(&sink.0), esc(&whole), cfg),
+                    json!({"kind": "single", "cmd": first, "cfg": cfg}),
+                );
+            }
+        }
+        for k in 0..whole.len() {
+            for second in &reps {
+                evals.fetch_add(1, Ordering::Relaxed);
+                let mut fresh = vec![];
+                if encode_with(&mut TTYEncoder::new(cfg.caps()), second, &mut fresh).is_err() {
+                    continue;
+                }
+                let mut enc = TTYEncoder::new(cfg.caps());
+                let cmd = first.command();
+                let _ = catch(|| enc.encode(&mut FailAfter { left: k }, cmd));
+                let mut after = vec![];
+                let res = encode_with(&mut enc, second, &mut after);
+                if res.is_err() || after != fresh {
+                    viol.add(
+                        format!("after-failed-write:{}:differs", second.name()),
+                        format!(
+                            "{:?} failed in the writer after {k} of {} bytes; then {:?} on the same encoder emitted {:?}, a fresh encoder emits {:?} ({:?})",
+                            first.command(), whole.len(), second.command(), esc(&after), esc(&fresh), cfg
+                        ),
+                        json!({"kind": "after-failed-write", "first": first, "k": k, "second": second, "cfg": cfg}),
+                    );
+                    return;
+                }
+            }
+        }
+    });
+    evals.load(Ordering::Relaxed)
+}
+
+// ---------------------------------------------------------------------------------------
 // (6) value sweeps: one numeric parameter takes EVERY value of a range (formatting of numbers, tables
 // indexed by value and per-character decisions are invisible to a boundary lattice)
 // ---------------------------------------------------------------------------------------
@@ -1261,6 +1356,10 @@ pub fn run(ctx: &Ctx) -> Result<Report, String> {
     // 5. colours with an alpha channel converted one after another by one encoder
     let history_evals = sweep_colour_history(&viol);
 
+    // 7. a command after an encode whose writer failed part-way (three colour depths)
+    let failed_cfgs: Vec<Cfg> = (0..3).map(|depth| Cfg { depth, kitty: true, glyphs: false }).collect();
+    let after_failed = sweep_after_failed_write(&viol, &failed_cfgs);
+
     // 6. value sweeps under two configurations (kitty keyboard off / on)
     let value_cfgs = [Cfg { depth: 0, kitty: false, glyphs: false }, Cfg { depth: 1, kitty: true, glyphs: true }];
     let value_total = VALUE_SHAPES * (VALUE_TOP + 1) * value_cfgs.len() as u64;
@@ -1270,7 +1369,7 @@ pub fn run(ctx: &Ctx) -> Result<Report, String> {
     sweep(ctx, char_top, 1 << 41, &one_cfg, |i| char_spec(i).unwrap_or(Spec::Char(0x20)), &viol, &samples, &c);
     capped |= ctx.over_cap();
 
-    let evals = c.evals.load(Ordering::Relaxed) + pair_evals.load(Ordering::Relaxed) + history_evals;
+    let evals = c.evals.load(Ordering::Relaxed) + pair_evals.load(Ordering::Relaxed) + history_evals + after_failed;
     let mut r = Report::new("exploration");
     r.set("evaluations", evals)
         .set("distinct_nontrivial", c.nontrivial.load(Ordering::Relaxed))
@@ -1291,6 +1390,7 @@ pub fn run(ctx: &Ctx) -> Result<Report, String> {
         .set("space_ordered_pairs", (n * n) as u64)
         .set("pair_streams", pair_evals.load(Ordering::Relaxed))
         .set("colour_history_streams", history_evals)
+        .set("after_failed_write_streams", after_failed)
         .set("value_sweep", json!({"shapes": VALUE_SHAPES, "values_per_shape": VALUE_TOP + 1, "configurations": 2, "characters": "every scalar value from U+0020 except DEL and C1"}))
         .set("representatives", n)
         .set("empty_outputs", c.empty_outputs.load(Ordering::Relaxed))
@@ -1336,6 +1436,24 @@ pub fn replay(w: &Value) -> Result<(bool, String), String> {
             Ok(match eval_pair(&a, &b, &cfg) {
                 Ok(()) => (false, format!("{head}\nstream parses to the concatenation of both operation lists")),
                 Err((culprit, kind, detail)) => (true, format!("{head}\n[{culprit}: {kind}] {detail}")),
+            })
+        }
+        Some("after-failed-write") => {
+            let first: Spec = serde_json::from_value(w["first"].clone()).map_err(|e| format!("first: {e}"))?;
+            let second: Spec = serde_json::from_value(w["second"].clone()).map_err(|e| format!("second: {e}"))?;
+            let k = w["k"].as_u64().ok_or("k")? as usize;
+            let mut fresh = vec![];
+            encode_with(&mut TTYEncoder::new(cfg.caps()), &second, &mut fresh).map_err(|e| e.1)?;
+            let mut enc = TTYEncoder::new(cfg.caps());
+            let cmd = first.command();
+            let _ = catch(|| enc.encode(&mut FailAfter { left: k }, cmd));
+            let mut after = vec![];
+            let res = encode_with(&mut enc, &second, &mut after);
+            let head = format!("{:?} fails in the writer after {k} bytes; then {:?} on the same encoder", first.command(), second.command());
+            Ok(if res.is_err() || after != fresh {
+                (true, format!("{head}\nemitted {:?}\na fresh encoder emits {:?}", esc(&after), esc(&fresh)))
+            } else {
+                (false, format!("{head} emits {:?}, as a fresh encoder does", esc(&after)))
             })
         }
         Some("colour-history") => {
